@@ -1,5 +1,7 @@
 import Driver.Common
 import LachesisVerif.Spec.Lachesis
+import LachesisVerif.Model.Orderer
+import LachesisVerif.Model.Vec
 open Drv
 
 namespace Drv.Cons
@@ -10,6 +12,8 @@ structure St where
   seals : Seals := []
   events : List (Nat × Ev) := []
   insts : List (Nat × Inst) := []
+  omodels : List (Nat × Model.Orderer.OState) := []   -- implementation-level model, run in lock-step
+  vmodels : List (Nat × Model.Vec.VState) := []       -- implementation-level vector index, in lock-step
 
 def parsePairs (ws : List String) : List (Nat × Nat) :=
   ws.filterMap (fun p => match p.splitOn ":" with
@@ -19,6 +23,34 @@ def parsePairs (ws : List String) : List (Nat × Nat) :=
 def getInst (st : St) (k : Nat) : Inst := (st.insts.lookup k).getD {}
 def setInst (st : St) (k : Nat) (i : Inst) : St :=
   { st with insts := (k, i) :: st.insts.filter (fun x => x.1 != k) }
+
+def mkVals (pairs : List (Nat × Nat)) : Model.Pos.Vals :=
+  (Model.Pos.build (pairs.foldl (fun b p => Model.Pos.set b p.1 p.2) [])).getD ⟨[], 0⟩
+
+def getO (st : St) (k : Nat) : Model.Orderer.OState :=
+  (st.omodels.lookup k).getD (Model.Orderer.initial 1 (mkVals st.genesis))
+def setO (st : St) (k : Nat) (o : Model.Orderer.OState) : St :=
+  { st with omodels := (k, o) :: st.omodels.filter (fun x => x.1 != k) }
+
+/-- the oracles of the Orderer model: forkless cause from the graph `g`, id byte order, seals -/
+def envOf (st : St) (g : Inst) : Model.Orderer.Env :=
+  { observe := fun a b => match g.posOf a, g.posOf b with
+      | some pa, some pb => g.fcSpec pa pb
+      | _, _ => false,
+    idKey := fun n => (match st.events.lookup n with | some e => e.lamport | none => 0) * 18446744073709551616 + n,
+    sealAt := fun e f => (st.seals.lookup (e, f)).map mkVals }
+
+def getV (st : St) (k : Nat) : Model.Vec.VState :=
+  (st.vmodels.lookup k).getD (Model.Vec.VState.init (mkVals st.genesis).len)
+def setV (st : St) (k : Nat) (v : Model.Vec.VState) : St :=
+  { st with vmodels := (k, v) :: st.vmodels.filter (fun x => x.1 != k) }
+
+/-- the event as the vector index sees it: creator index and parent positions in graph `g` -/
+def vecEvent (g : Inst) (e : Ev) : Model.Vec.Event :=
+  { creator := (g.idxOf e.creator).getD 0, seq := e.seq, parents := e.parents.filterMap g.posOf }
+
+def sameDecisions (bs : List Inst.Block) (ds : List Model.Orderer.Decided) : Bool :=
+  bs.map (fun b => (b.epoch, b.frame, b.atropos, b.sealed)) == ds.map (fun d => (d.epoch, d.frame, d.atropos, d.sealed))
 
 def stateStr (i : Inst) : String := s!"E={i.epoch} LDF={i.ldf}"
 
@@ -56,11 +88,21 @@ def step (st : St) (ws : List String) : St × String :=
   | "seal" :: e :: f :: ps => ({ st with seals := ((nat! e, nat! f), parsePairs ps) :: st.seals }, "ok")
   | ["inst", k, _] =>
     let i := Inst.fresh 1 st.genesis
-    (setInst st (nat! k) i, stateStr i)
-  | ["restart", k] => (st, stateStr (getInst st (nat! k)) ++ " -")
+    (setV (setO (setInst st (nat! k) i) (nat! k) (Model.Orderer.initial 1 (mkVals st.genesis))) (nat! k)
+       (Model.Vec.VState.init i.nv), stateStr i)
+  | ["restart", k] =>
+    let i := getInst st (nat! k)
+    let o := getO st (nat! k)
+    match Model.Orderer.bootstrap (envOf st i) o with
+    | .ok (o', [], false) =>
+      let note := if o'.ldf == i.ldf && o'.epoch == i.epoch then "" else " MODEL-DIFFERS-FROM-REFERENCE"
+      (setO st (nat! k) o', stateStr i ++ " -" ++ note)
+    | .ok (_, ds, _) => (st, stateStr i ++ s!" - MODEL-DECIDES-ON-RESTART({ds.length})")
+    | .error x => (st, stateStr i ++ " - MODEL-ERROR " ++ x.name)
   | "reset" :: k :: e :: ps =>
     let i := Inst.fresh (nat! e) (parsePairs ps)
-    (setInst st (nat! k) i, stateStr i)
+    (setV (setO (setInst st (nat! k) i) (nat! k) (Model.Orderer.initial (nat! e) (mkVals (parsePairs ps)))) (nat! k)
+       (Model.Vec.VState.init i.nv), stateStr i)
   | "ev" :: n :: rest =>
     let e := mkEv (nat! n) (nat! ((kv rest "e").getD "0")) rest (nat! ((kv rest "f").getD "0"))
     if !knownParents st e then (st, "err unknown-parent") else
@@ -72,6 +114,10 @@ def step (st : St) (ws : List String) : St × String :=
     match build i e with
     | none => (st, "err noparent")
     | some f =>
+      let mf := match i.insert e with
+        | some g => Model.Orderer.build (envOf st g) (getO st (nat! k)) e.n (g.selfParentFrame e)
+        | none => 0
+      if mf != f then (st, s!"frame={f} MODEL-DIFFERS-FROM-REFERENCE({mf})") else
       let st' := if (kv rest "keep") == some "0" then st else { st with events := (e.n, { e with frame := f }) :: st.events }
       (st', s!"frame={f}")
   | ["process", k, n] =>
@@ -80,21 +126,44 @@ def step (st : St) (ws : List String) : St × String :=
     | none => (st, "unknown-event")
     | some e =>
       let (i', r) := process st.seals i e
+      -- the implementation-level model on the same op
+      let o := getO st (nat! k)
+      let (o', mr) := match i.insert e with
+        | some g => Model.Orderer.process (envOf st g) o e.n e.creator (g.selfParentFrame e) e.frame
+        | none => (o, .wrongFrame)
       match r with
       | .skip => (st, "skip " ++ stateStr i)
       | .noParent => (st, "err noparent " ++ stateStr i)
-      | .wrongFrame => (st, "err wrongframe " ++ stateStr i)
-      | .ok bs => (setInst st (nat! k) i', s!"ok {stateStr i'} {fmtBlocks bs}")
+      | .wrongFrame =>
+        let note := match mr with | .wrongFrame => "" | _ => " MODEL-DIFFERS-FROM-REFERENCE"
+        (st, "err wrongframe " ++ stateStr i ++ note)
+      | .ok bs =>
+        let note := match mr with
+          | .ok ds => if sameDecisions bs ds && o'.ldf == i'.ldf && o'.epoch == i'.epoch then "" else " MODEL-DIFFERS-FROM-REFERENCE"
+          | .wrongFrame => " MODEL-REJECTS"
+          | .failed x => " MODEL-ERROR " ++ x.name
+        -- vector index model: add the event, or start afresh when the epoch was sealed
+        -- (the function-valued model is only run on small DAGs: its look-ups are chains of closures)
+        let v0 := getV st (nat! k)
+        let v' := if i'.epoch != i.epoch then Model.Vec.VState.init i'.nv
+                  else if v0.size == i.size && i.size < 400 then v0.add (vecEvent i e) else v0
+        (setV (setO (setInst st (nat! k) i') (nat! k) o') (nat! k) v', s!"ok {stateStr i'} {fmtBlocks bs}{note}")
   | ["fc", k, a, b] =>
     let i := getInst st (nat! k)
     match posIn i (nat! a), posIn i (nat! b) with
-    | some pa, some pb => (st, b2s (i.fcSpec pa pb))
+    | some pa, some pb =>
+      let v := getV st (nat! k)
+      let same := v.size != i.size || v.fc i.weightIdx i.quorum pa pb == i.fcSpec pa pb
+      (st, b2s (i.fcSpec pa pb) ++ (if same then "" else " VECTOR-MODEL-DIFFERS"))
     | _, _ => (st, "na")
   | ["hb", k, a] =>
     let i := getInst st (nat! k)
     match posIn i (nat! a) with
     | some pa =>
-      (st, ",".intercalate ((List.range i.nv).map (fun v => match i.hbSpec pa v with | none => "F" | some q => toString q)))
+      let v := getV st (nat! k)
+      let same := v.size != i.size || (List.range i.nv).all (fun c => v.merged pa c == i.hbSpec pa c)
+      (st, ",".intercalate ((List.range i.nv).map (fun v => match i.hbSpec pa v with | none => "F" | some q => toString q))
+           ++ (if same then "" else " VECTOR-MODEL-DIFFERS"))
     | none => (st, "na")
   | ["roots", k, f] =>
     let i := getInst st (nat! k)
